@@ -25,7 +25,9 @@ Ge(s, t) == C2(">=", s, t)
 St(tag) == C(tag, <<X, Y, Z, E>>)
 Str == ListOf(<<A("a"), A("b")>>)              \* rendered as the string "ab" by the driver
 
-Helpers == << [h |-> T1(I(1)), b |-> True], [h |-> T1(I(2)), b |-> True], [h |-> T1(I(3)), b |-> True] >>
+(* t/1 enumerates 1,2,3 through a disjunction: whether a choice point is left does not depend on   *)
+(* first-argument indexing (determinism detection is a freedom of the implementation)              *)
+Helpers == << [h |-> T1(V("A")), b |-> Disj(Eq(V("A"), I(1)), Disj(Eq(V("A"), I(2)), Eq(V("A"), I(3))))] >>
 
 (* ---- goals that run inside a catch/3 ---- *)
 Throwers == <<
@@ -91,7 +93,8 @@ BodyB(v) == Ctx(v[7], Cat(Conj(Cat(Throwers[InnerT[v[1]]], Catchers[InnerK[v[2]]
 (* ---- family C: setup_call_cleanup ---- *)
 Setups == << True, Log(A("s")), Fail, Thw(A("sx")), Disj(Log(A("s1")), Log(A("s2"))) >>
 SGoals == << True, Fail, Thw(A("b")), Disj(Eq(X, I(1)), Eq(X, I(2))), Disj(Eq(X, I(1)), Thw(A("b"))), T1(X),
-             Conj(T1(X), Cut), Disj(Eq(X, I(1)), Fail), Cat(T1(X), E, True), Conj(Eq(Y, I(4)), Disj(Eq(X, I(1)), Eq(X, I(2)))) >>
+             Conj(T1(X), Cut), Disj(Eq(X, I(1)), Fail), Cat(T1(X), E, True), Conj(Eq(Y, I(4)), Disj(Eq(X, I(1)), Eq(X, I(2)))),
+             Call1(I(1)), C2("atom_length", U, W) >>
 Cleanups == << Log(C2("c", X, Y)), Conj(Log(A("c")), Fail), Conj(Log(A("c")), Thw(A("cl"))), Disj(Log(A("c1")), Log(A("c2"))),
                Conj(Log(A("c")), Eq(Z, A("done"))) >>
 Afters == << Log(St("after")), Conj(Cut, Log(St("after"))), Fail, Conj(Log(St("x")), Eq(X, I(2))), Thw(A("o")),
@@ -126,8 +129,8 @@ RCatcher(u) == RandomElement({E, E2, a, C2("f", E, Z), C2("g", E, I(3)), C2("err
 RLeaf(u) ==
   LET k == RandomElement(1..22) IN
   CASE k \in {1, 2, 3} -> Thw(RBall(u))
-    [] k = 4 -> C2("atom_length", U, W) [] k = 5 -> C2("is", Z, C2("+", A("foo"), I(1))) [] k = 6 -> C3("arg", a, A("b"), A("c"))
-    [] k = 7 -> A("zz") [] k = 8 -> Call1(I(1))
+    [] k = 4 -> C2("atom_length", U, W) [] k = 5 -> Call1(C2("is", Z, C2("+", A("foo"), I(1)))) [] k = 6 -> C3("arg", a, A("b"), A("c"))
+    [] k = 7 -> A("zz") [] k = 8 -> Conj(Eq(V("N"), I(1)), Call1(V("N")))
     [] k = 9 -> Eq(X, I(1)) [] k = 10 -> Eq(Y, I(1)) [] k = 11 -> T1(X) [] k = 12 -> T1(Y) [] k = 13 -> Fail [] k = 14 -> Cut
     [] k = 15 -> True [] k = 16 -> Log(St("l")) [] k = 17 -> Conj(T1(X), Ge(X, I(2))) [] k = 18 -> Eq(X, C1("s", Y)) [] k = 19 -> Eq(Z, C2("f", X, Y))
     [] k = 20 -> Log(A("m")) [] k = 21 -> Eq(X, I(2)) [] k = 22 -> Eq(E, Y)
@@ -168,5 +171,5 @@ Inv == MachineOk(m) /\ CollectorsOk(m) /\ (m.phase # "gen" => ExtOk(m))
 
 Emit == m.phase = "done" /\ m.status \in {"done", "exc"} =>
           PrintT(ToJson([fam |-> fam, prog |-> <<m.prog[1]>>, q |-> m.q, qv |-> m.qv, ans |-> m.ans, status |-> m.status,
-                         ball |-> m.ball, out |-> m.out, unspec |-> m.unspec, nestcut |-> m.nestcut, ncl |-> Len(m.cl), steps |-> m.steps]))
+                         ball |-> m.ball, out |-> m.out, unspec |-> m.unspec, nested |-> m.nested, ncl |-> Len(m.cl), steps |-> m.steps]))
 =============================================================================
